@@ -246,6 +246,11 @@ const SHAPES: &[&str] = &[
     "{% for x in xs %}{{ @1 }}{% if @2 %}{% continue %}{% endif %}{{ @3 }}{% endfor %}",
     "{% for x in xs %}{% if x == 2 %}{% break %}{% endif %}{{ @1 }}{% else %}{{ @2 }}{% endfor %}",
     "{% for x in xs %}{% for y in xs %}{{ @1 }}{% if @2 %}{% break %}{% endif %}{% endfor %}{{ @3 }}{% endfor %}",
+    // the loop's own variable re-bound by a `set` inside the body, then read as the root of a path
+    // in a non-write position (seeded change C09-14 let the fused load take the loop item directly,
+    // past the iteration's assignments)
+    "{% for v in xs %}{% set v = a %}{{ v.b ~ @1 }}{% if v.b %}{{ @2 }}{% endif %}{% endfor %}",
+    "{% for k, v in {\"p\": 1} %}{% set v = a %}{% set k = a %}{{ (v.b.c | default(value=\"d\")) ~ (k.b | default(value=@1)) }}{% endfor %}{{ @2 }}",
     "{{ [@1 for x in xs] }}",
     "{{ [@1 for x in xs if @2] }}{{ @3 }}",
     "{{ [x for x in xs if @1] }}",
